@@ -159,6 +159,9 @@ def rsa_cases(rng, tier, pad, key="1024:c0601", bits=1024):
         cases.append(line(plaintext(rng, n, "r"), 256, []))
     cases.append(line(plaintext(rng, 5, "r"), k - 1, []))
     cases.append(line(plaintext(rng, 5, "r"), k, ["cap:4", "cap:5", "cap:0"]))
+    # a plaintext with leading zero bytes into buffers between the length of the stripped integer and its own length
+    cases.append(line(b"\x00\x00\x00\x41", k, ["cap:1", "cap:2", "cap:3", "cap:4"]))
+    cases.append(line(b"\x00" * 7 + b"\x01\x02", k, ["cap:2", "cap:8", "cap:9"]))
     # mutations: every byte position of a ciphertext, wrong lengths, c + n
     nbase = 2 if quick else 6
     for b in range(nbase):
